@@ -151,7 +151,7 @@ fn logic_expression(input: Span) -> PResult<Value> {
     let (input1, a) = sum_expression(input)?;
     fold_many0(
         (
-            delimited(multispace0, relational_operator, multispace0),
+            delimited(ignore_comments, relational_operator, ignore_comments),
             sum_expression,
             position,
         ),
